@@ -24,7 +24,7 @@ Qed.
 
 Lemma Good_ext : forall ob n W W' sn sd, (forall k, W k = W' k) -> Good ob n W sn sd -> Good ob n W' sn sd.
 Proof.
-  intros ob n W W' sn sd HW G. destruct G as [G1 G2 G3 G4 G5 G6 G6' G7 G8]. constructor; auto.
+  intros ob n W W' sn sd HW G. destruct G as [G1 G2 G3 G4 G5 G5' G6 G6' G7 G8]. constructor; auto.
   - intros o k H1 H2. destruct (G4 o k H1 H2) as [v [A B]]. exists v. rewrite <- HW. auto.
   - intros o k H1 H2 H3 H4. destruct (G7 o k H1 H2 H3 H4) as [A|A]; [left; rewrite <- HW; auto|right; auto].
 Qed.
@@ -184,7 +184,7 @@ Section Sem.
   Proof.
     intros x Hx. assert (Hn : x < n) by (pose proof (r_n _ _ _ _ _ _ _ R); lia).
     destruct (expunged f sn x) eqn:He.
-    - destruct (r_exp _ _ _ _ _ _ _ R x Hx He) as [A B].
+    - pose proof (r_exp _ _ _ _ _ _ _ R x Hx He) as B.
       destruct (fo4_E b f ob n sn sd x) as [C [D _]]; [rewrite memE_exp; auto|intros Y; apply sn_notin; auto|].
       rewrite C, D, B. split; auto. split; [|intros; congruence].
       destruct (oin (gobjs g x)) eqn:E; auto. destruct (g_in _ _ _ _ _ GG x E) as [_ [X _]]. congruence.
@@ -294,7 +294,7 @@ Section Sem.
       assert (Hk' : okey (gobjs g x) = Some k) by congruence.
       destruct (g_rows _ _ _ _ _ GG x k H2 Hk') as [v [Hw Hva]]. exists v. split; auto.
       assert (He : expunged f sn x = false).
-      { destruct (expunged f sn x) eqn:He; auto. destruct (r_exp _ _ _ _ _ _ _ R x H1 He). congruence. }
+      { destruct (expunged f sn x) eqn:He; auto. pose proof (r_exp _ _ _ _ _ _ _ R x H1 He). congruence. }
       destruct (fo4_notE b f ob n sn sd x) as [C1 [C2 [C3 [C4 Hv]]]]; [rewrite memE_exp; auto|].
       destruct Hv as [[D1 [D2 [D3 [D4 [D5 _]]]]]|[D1 [D2 [D3 [D4 [D5 D6]]]]]].
       { unfold VA. rewrite D1, D2, D3, D4, D5. repeat split; auto; try congruence; intros; discriminate. }
@@ -330,6 +330,7 @@ Section Sem.
       + destruct (A_id x Hg) as [A1 [A2 A3]]. rewrite A1 in Ha. destruct (A3 Ha) as [A4 A5].
         assert (In x []); [|auto]. apply (g_new _ _ _ _ _ GG). repeat split; congruence.
       + destruct (A_fresh x Hg Hn). congruence.
+    - intros x [].
     - intros x [].
     - split; constructor.
     - intros x k Hn Hk Ha Hd. destruct (Nat.lt_ge_cases x (gn g)) as [Hg|Hg].
